@@ -244,34 +244,50 @@ def fixsigns (o : NumOps α) (K : Ktensor α) : Ktensor α :=
 
 /-! ### the whole function -/
 
+/-- `optdims` given by the caller: distinct entries, every entry a mode of the tensor. -/
+def optdimsOK (od : List Nat) (N : Nat) : Bool :=
+  od.all (fun d => decide (d < N)) && (od.eraseDups.length == od.length)
+
+/-- `optdims`: all modes by default; a given list must consist of distinct modes (4059b7d). -/
+def resolveOptdims (N : Nat) : Option (List Nat) → Except Reject (List Nat)
+  | none => pure (List.range N)
+  | some od => if optdimsOK od N then pure od else .error .reject
+
+/-- "Set up and error checking on initial guess". -/
+def resolveInit (D : Data α) (rank : Nat) (dimorder : List Nat) : Init α → Except Reject (Ktensor α)
+  | .given K =>
+    if K.factors.length != D.shape.length then .error .reject
+    else if K.weights.length != rank then .error .reject
+    else if dimorder.all fun n =>
+        let A := K.factors.getD n []
+        A.length == D.shape.getD n 0 && A.all fun row => row.length == rank
+      then pure K else .error .reject
+  | .random draws =>
+    pure ⟨List.replicate rank 1, (List.range D.shape.length).map fun n => draws.getD n []⟩
+  | .nvecs =>
+    match D.nvecs with
+    | none => .error .reject
+    | some f => pure ⟨List.replicate rank 1, (List.range D.shape.length).map fun n => f n rank⟩
+  | .unsupported => .error .reject
+
 /-- Validation of `dimorder`, `optdims`, `rank` and the start; returns
 `(dimorder_in, optdims, reduced dimorder, init)`. -/
 def setup (D : Data α) (P : Params α) (init : Init α) :
-    Except Reject (List Nat × List Nat × List Nat × Ktensor α) := do
+    Except Reject (List Nat × List Nat × List Nat × Ktensor α) :=
   let N := D.shape.length
   let dimorder := P.dimorder.getD (List.range N)
-  if !isPermOf dimorder N then .error .reject
-  let optdims := P.optdims.getD (List.range N)
-  if P.rank == 0 then .error .reject
-  let K ← match init with
-    | .given K =>
-      if K.factors.length != N then .error .reject
-      else if K.weights.length != P.rank then .error .reject
-      else if dimorder.all fun n =>
-          let A := K.factors.getD n []
-          A.length == D.shape.getD n 0 && A.all fun row => row.length == P.rank
-        then pure K else .error .reject
-    | .random draws =>
-      pure ⟨List.replicate P.rank 1, (List.range N).map fun n => draws.getD n []⟩
-    | .nvecs =>
-      match D.nvecs with
-      | none => .error .reject
-      | some f => pure ⟨List.replicate P.rank 1, (List.range N).map fun n => f n P.rank⟩
-    | .unsupported => .error .reject
-  let dims := dimorder.filter fun d => optdims.contains d
-  -- `dimorder[-1]` of an empty list raises
-  if dims.isEmpty then .error .reject
-  pure (dimorder, optdims, dims, K)
+  if !isPermOf dimorder N then .error .reject else
+  match resolveOptdims N P.optdims with
+  | .error e => .error e
+  | .ok optdims =>
+    if P.rank == 0 then .error .reject else
+    match resolveInit D P.rank dimorder init with
+    | .error e => .error e
+    | .ok K =>
+      let dims := dimorder.filter fun d => optdims.contains d
+      -- `dimorder[-1]` of an empty list raises
+      if dims.isEmpty then .error .reject
+      else .ok (dimorder, optdims, dims, K)
 
 /-- The state before the first pass. -/
 def initState (D : Data α) (rank : Nat) (dims : List Nat) (K : Ktensor α) : State α :=
